@@ -188,6 +188,23 @@ func buildInputs(seed int64) {
 	}
 	addCase("undecodable-A", bad, m1, honest1)
 	addCase("key-31-bytes", k1.pk[:31], m1, honest1)
+	// wrong-length keys that share their first bytes with a key that may be RESIDENT in the cache: a lookup that
+	// forgets the length check would hand them the resident expansion
+	addCase("key-33-bytes(k1||00)", append(append([]byte{}, k1.pk...), 0), m1, honest1)
+	addCase("key-64-bytes(k1||k2)", append(append([]byte{}, k1.pk...), k2.pk...), m1, honest1)
+	{
+		// an honest key whose last byte is zero, and its 31-byte prefix (a copy into a zeroed 32-byte buffer completes it)
+		for ctr := 0; ctr < 100000; ctr++ {
+			kz := newSigner(mc.Bytes(seed, "c09key-z", ctr, 32))
+			if kz.pk[31] == 0 {
+				skz := ed25519.NewKeyFromSeed(kz.seed)
+				sz := ed25519.Sign(skz, m1)
+				addCase("honest-kz(last byte 0)", kz.pk, m1, sz)
+				addCase("key-31-bytes(prefix of kz)", kz.pk[:31], m1, sz)
+				break
+			}
+		}
+	}
 	addCase("key-empty", nil, m1, honest1)
 	// small-order R: R = T2 (r = 0)
 	smallR := func(i int) func(rB *curve.EdwardsPoint) []byte {
@@ -796,7 +813,11 @@ func (o cop) String() string {
 func cachedClosure(c *mc.Ctx) {
 	C := func(n string) int { return caseIdx[n] }
 	O := func(n string) int { return optIdx[n] }
-	keysC := []string{"honest-k1", "honest-k2", "mixed-order-A", "small-order-A(T1)", "noncanonical-small-order-A(identity)", "undecodable-A", "key-31-bytes", "flipped-S-bit", "cofactored-only(R+T1)"}
+	keysC := []string{"honest-k1", "honest-k2", "mixed-order-A", "small-order-A(T1)", "noncanonical-small-order-A(identity)", "undecodable-A", "key-31-bytes", "flipped-S-bit", "cofactored-only(R+T1)",
+		"key-33-bytes(k1||00)", "key-64-bytes(k1||k2)"}
+	if _, ok := caseIdx["honest-kz(last byte 0)"]; ok {
+		keysC = append(keysC, "honest-kz(last byte 0)", "key-31-bytes(prefix of kz)")
+	}
 	var alphabet []cop
 	for _, k := range keysC {
 		alphabet = append(alphabet, cop{2, C(k), O("default(nil)")}, cop{1, C(k), 0})
